@@ -450,7 +450,7 @@ def constrained_leaf_roundtrips(ctx, codecs=('BER', 'CER', 'DER')):
                 ctx.prop_fail('a value satisfying the constraint cannot be built', {'type': tg + name, 'error': repr(e)[:200]}); continue
             for cdc in codecs:
                 for kw in modes[cdc]:
-                    if len(pv) > 100 and kw.get('maxChunkSize') in (1, 3): continue
+                    if not isinstance(pv, int) and len(pv) > 100 and kw.get('maxChunkSize') in (1, 3): continue
                     for how in ('object', 'python'):
                         n += 1
                         ctx.case(('constrained-leaf', tg + name, cdc, tuple(sorted(kw.items())), how), True)
@@ -461,7 +461,10 @@ def constrained_leaf_roundtrips(ctx, codecs=('BER', 'CER', 'DER')):
                         m['bytes'] = e[1][:64].hex()
                         d = I.run_decode(cdc, e[1], asn1Spec=T)
                         if d[0] != 'ok': ctx.prop_fail('decoder refuses the encoding of a constrained value: %s' % d[2], m)
-                        elif d[2]: ctx.prop_fail('octets left over after the encoding of a constrained value', m)
+                        elif d[2]:
+                            # EXPLICIT tag over a primitive in an indefinite-length mode: the recorded finding F01
+                            f01 = 'EXPLICIT' in tg and name.startswith('INTEGER') and (cdc == 'CER' or kw.get('defMode') is False)
+                            ctx.prop_fail('octets left over after the encoding of a constrained value', m, finding='F01' if f01 else None)
                         elif not (d[1] == v): ctx.prop_fail('constrained value comes back different', m)
     return n
 
